@@ -167,7 +167,7 @@ func tail(s string, n int) string {
 func describe(r *ev.Run, id string, thorough bool) {
 	switch id {
 	case "C19":
-		r.Rule = "real codec registry (instrumented through a build overlay: scheduling points at every lock operation, before every statement that touches the registry's fields and at every operation boundary; R/W events on the registry's fields) under a controlled scheduler; scenarios: every unordered pair of programs of <=2 ops over {Reg(A,1),Reg(A,2),Reg(B,3),Get(A),Get(B),Rem(A),Clear,Reg(non-service)} on 2 threads and every multiset of 3 single ops on 3 threads" + map[bool]string{true: ", plus every multiset of three 2-op programs over {Reg(A,1),Get(A),Rem(A),Clear} on 3 threads (816 scenarios, preemption bound 3) and every multiset of 4 single ops on 4 threads from 2 initial states (660 scenarios, preemption bound 3)", false: ""}[thorough] + ", from 3 initial states (empty, {A}, the four built-ins), plus, in a registry holding 64 names of one and two characters, every pair of different names looked up by two threads and again afterwards (2,016 scenarios); plus every pair of single ops on 2 threads from 15 WARM start states ({A} after W sequential look-ups, W in {1,2,3,7,8,15,16,...,255,256}); ALL interleavings (no preemption bound; if a scenario exceeds the execution cap it is re-explored to preemption bound 2 and reported); also, single-threaded, every operation sequence of length <= 3 (4) over the names {A, a, 'A ', ''} against the map model; oracle per execution: call/return history + final look-ups linearizable w.r.t. a plain map with real-time order (brute force), no happens-before race (vector clocks over lock edges), no deadlock; evaluations = schedules executed, all distinct"
+		r.Rule = "real codec registry (instrumented through a build overlay: scheduling points at every lock operation, before every statement that touches the registry's fields and at every operation boundary; R/W events on the registry's fields) under a controlled scheduler; scenarios: every unordered pair of programs of <=2 ops over {Reg(A,1),Reg(A,2),Reg(B,3),Get(A),Get(B),Rem(A),Clear,Reg(non-service)} on 2 threads and every multiset of 3 single ops on 3 threads" + map[bool]string{true: ", plus every multiset of three 2-op programs over {Reg(A,1),Get(A),Rem(A),Clear} on 3 threads (816 scenarios, preemption bound 3) and every multiset of 4 single ops on 4 threads from 2 initial states (660 scenarios, preemption bound 3)", false: ""}[thorough] + ", from 3 initial states (empty, {A}, the four built-ins), plus, in a registry holding 64 names of one and two characters, every pair of different names looked up by two threads and again afterwards (2,016 scenarios); plus every pair of single ops on 2 threads from 15 WARM start states ({A} after W sequential look-ups, W in {1,2,3,7,8,15,16,...,255,256}); ALL interleavings (no preemption bound; if a scenario exceeds the execution cap it is re-explored to preemption bound 2 and reported); also, single-threaded, every operation sequence of length <= 5 (6) over the names {A, a, 'A ', ''} against the map model; oracle per execution: call/return history + final look-ups linearizable w.r.t. a plain map with real-time order (brute force), no happens-before race (vector clocks over lock edges), no deadlock; evaluations = schedules executed, all distinct"
 		r.Assume("scheduling only at visible operations is a sound partial-order reduction here (all shared state is package-level; cross-checked against statement granularity: same 16,464 outcomes); memory effects below happens-before are not modelled", "linearizability decided by brute force AND by porcupine v1.3.0, which must agree on every execution", "the RWMutex shim admits readers while a writer waits (superset of Go's behaviour)")
 	case "C20":
 		r.Rule = "(a) sequential global-state invariant: after a warm-up pass (one-time initialisation allowed), the deep hash of every package-level variable of codec and the 5 message packages is identical before/after every Encode and Decode over V1 of all 170 types; (b) 2 threads each doing Encode(m_i,b_i); Decode(b_i->r_i) on their own objects under the controlled scheduler on the instrumented build (statement granularity): the 170 self-pairs and a ring of 170 cross-type pairs" + map[bool]string{true: " and one frame pair per pair of protocols and frame pairs; preemption bound 2 for types with <=120 points, bound 1 otherwise", false: ", preemption bound 1"}[thorough] + "; per type one thread first running a decode that fails midway; plus 2 and 3 threads computing each checksum service at the same time from the pristine package state; oracle: each thread's bytes and decoded value equal its sequential result, no happens-before race on any package-level variable, no deadlock; evaluations = schedules executed"
